@@ -48,6 +48,7 @@ func leaves(thorough bool) []Tree {
 		{Kind: "unlimited", D: 1500},
 		{Kind: "line", A: 0, B: 4, D: 1000},
 		{Kind: "istep", A: 1, B: 3, C: 1, D: 1000},
+		{Kind: "istep", A: 0, B: 5, C: 2, D: 500}, // from 0, range not divisible by the step
 	}
 	if thorough {
 		l = append(l, Tree{Kind: "step", A: 1, B: 2, C: 1, D: 1000}, Tree{Kind: "once", A: 3})
